@@ -213,19 +213,20 @@ def spec_render(ps):
     return "".join(spec_contribs(ps))
 
 
-def spec_content_tokens(ps):
-    """values of the `content` tokens the lexer must produce: stripped non-empty texts and raw bodies outside comments"""
+def spec_content_contribs(ps):
+    """per piece: the value of the `content` token the lexer must produce for it (None: no content token) —
+    stripped texts and raw bodies outside comments"""
     vals = []
     depth = 0
     for i, p in enumerate(ps):
         k = p[0]
+        v = None
         if depth > 0:
             if k == "tag" and p[4] == "endcomment":
                 depth -= 1
             elif k == "tag" and p[4] == "comment":
                 depth += 1
-            continue
-        if k == "tag" and p[4] == "comment":
+        elif k == "tag" and p[4] == "comment":
             depth = 1
         elif k == "text":
             s = p[1]
@@ -233,11 +234,15 @@ def spec_content_tokens(ps):
                 s = s.lstrip()
             if i + 1 < len(ps) and open_hyphen(ps[i + 1]):
                 s = s.rstrip()
-            if s:
-                vals.append(s)
+            v = s
         elif k == "raw":
-            vals.append(p[2])
+            v = p[2]
+        vals.append(v)
     return vals
+
+
+def spec_content_tokens(ps):
+    return [v for p, v in zip(ps, spec_content_contribs(ps)) if v is not None and (v or p[0] == "raw")]
 
 
 def starts_markup(d, t):
@@ -249,9 +254,10 @@ def text_ok(d, s, nxt):
     return s != "" and not any(starts_markup(d, s[i:] + nxt) for i in range(len(s)))
 
 
-def mismatch_signature(ps, got, what):
+def mismatch_signature(ps, got, what, contribs=None):
     """Name the piece at which the output first departs from the specification, with its neighbours' markers."""
-    contribs = spec_contribs(ps)
+    if contribs is None:
+        contribs = spec_contribs(ps)
     exp = "".join(contribs)
     n = 0
     while n < len(got) and n < len(exp) and got[n] == exp[n]:
@@ -802,7 +808,8 @@ class _PieceStream(Stream):
         ps = case["ps"]
         if self.level == "render":
             if "err" in obs:
-                return (f"render|raises-{obs['err']}", f"rendering a template of text/output/raw/comment/doc/liquid pieces raised {obs['err']}")
+                kinds = ",".join(sorted({kind_of(p) for p in ps if p[0] != "text"}))
+                return (f"render|raises-{obs['err']}|kinds={kinds}", f"rendering a template of text/output/raw/comment/doc/liquid pieces raised {obs['err']}")
             exp = spec_render(ps)
             if obs["out"] != exp:
                 return (mismatch_signature(ps, obs["out"], "render"), f"expected {exp!r}, got {obs['out']!r}")
@@ -811,8 +818,10 @@ class _PieceStream(Stream):
                 return (f"tokens|raises-{obs['err']}", f"tokenizing raised {obs['err']}")
             got = [t[1] for t in obs["tokens"] if t[0] == "content"]
             exp = spec_content_tokens(ps)
-            if got != exp:
-                return (mismatch_signature(ps, "".join(got), "tokens") if "".join(got) != "".join(exp) else "tokens|content-split", f"content tokens {got!r}, expected {exp!r}")
+            # (how the text is cut into content tokens is the model correspondence's business, not the property's)
+            if "".join(got) != "".join(exp):
+                cc = [v or "" for v in spec_content_contribs(ps)]
+                return (mismatch_signature(ps, "".join(got), "tokens", cc), f"content tokens {got!r}, expected {exp!r}")
             src = assemble(delims(case), ps)
             for kind, value, start in obs["tokens"]:
                 # every token except stripped text and block-comment text is a slice of the source at its start index
